@@ -91,6 +91,10 @@ type Step struct {
 	MapPolicy   string               `json:"map_policy,omitempty"`   // sorted|reverse|rotate|shuffle
 	SchedPolicy string               `json:"sched_policy,omitempty"` // run-to-block|random|round-robin|prefer-low|prefer-high|mostly-low|mostly-high|rtb-high|rtb-random
 	StepBudget  int64                `json:"step_budget,omitempty"`
+	// PreemptEvery n > 0: with several tasks alive, the running task is
+	// pre-empted with probability 1/n before each statement (statement-level
+	// interleaving of unsynchronised code; 0: only at synchronisation points).
+	PreemptEvery int `json:"preempt_every,omitempty"`
 	// CPUs is what runtime.NumCPU / GOMAXPROCS(0) report (0: derived from Seed).
 	CPUs int `json:"cpus,omitempty"`
 	// OutDir is where created files are materialised (real directory).
@@ -159,6 +163,7 @@ type Journal struct {
 	SimTimeUs   int64 `json:"sim_time_us"` // simulated time at exit (ticks + jumps), microseconds
 	DelayedReads int  `json:"delayed_reads,omitempty"`
 	DelayedWrites int `json:"delayed_writes,omitempty"`
+	StmtPreempts  int `json:"stmt_preempts,omitempty"` // pre-emptions between two statements
 	// memory traffic of the whole process at exit (runtime.MemStats): a second
 	// deterministic cost measure besides the logical clock; it also sees work
 	// done inside the standard library and dependencies (copies, re-rendering)
